@@ -36,6 +36,26 @@ func vfCI(s, word string) bool {
 	return ok
 }
 
+// vfDuplicates counts names that repeat an earlier one or a built-in/renderer name (concretely decided).
+func vfDuplicates(names []string) int {
+	known := []string{"csv", "html", "json", "markdown", "ascii-simple", "none", "utf8-double", "utf8-heavy", "utf8-light", "utf8-light-curved"}
+	d := 0
+	for _, n := range names {
+		dup := false
+		for _, k := range known {
+			if n == k {
+				dup = true
+			}
+		}
+		if dup {
+			d++
+		} else {
+			known = append(known, n)
+		}
+	}
+	return d
+}
+
 var vfBuiltins = []string{"ascii-simple", "none", "utf8-double", "utf8-heavy", "utf8-light", "utf8-light-curved"}
 
 // VerifC19_listing: every advertised style is accepted and renders; the listing is sorted and complete,
@@ -52,7 +72,22 @@ func VerifC19_listing() {
 		decoration.RegisterDecorationName(n, d)
 		extra = append(extra, n)
 	}
+	// further application names (concrete), so that the registry's own storage has been grown
+	nfix := vfChoice("nfixed", 7)
+	for i := 0; i < nfix; i++ {
+		n := vfName("zz-app-", i)
+		decoration.RegisterDecorationName(n, decoration.ASCIIBoxSimple())
+		extra = append(extra, n)
+	}
+	first := ListStyles()
 	list := ListStyles()
+	vfAssert(len(first) == len(list), "listing-repeatable")
+	if len(first) == len(list) {
+		for i := range list {
+			vfAssert(first[i] == list[i], "listing-repeatable")
+		}
+	}
+	vfAssert(len(list) == 10+len(extra)-vfDuplicates(extra), "listing-has-no-strangers")
 	for i := 1; i < len(list); i++ {
 		vfAssert(list[i-1] <= list[i], "listing-sorted")
 	}
